@@ -11,7 +11,7 @@ STUBS = c03.STUBS + ["bytes/BytesIO/Struct shadows for export -> frombytes"]
 ASSUMPTIONS = c03.ASSUMPTIONS + ["load: the exported table is an arbitrary valid table; fingerprint width, hash function and expansion settings are re-supplied as the format does not store them"]
 BOUNDS = dict(c03.BOUNDS)
 EXPECT_LABELS = {"quick": ["inv-bucket-size", "inv-candidate-bucket", "inv-distinct", "inv-no-zero-count", "inv-capacity-growth",
-                           "load-table-equal", "load-inv-candidate-bucket"]}
+                           "load-table-equal", "load-inv-candidate-bucket", "inv-candidate-bucket-concrete-fp"]}
 
 
 def load(ctx, cfg):
@@ -41,7 +41,33 @@ def load(ctx, cfg):
         ctx.check(g.unique_elements == len(after), "load-unique")
 
 
+def concrete_fp_history(ctx, cfg):
+    """(H) companion with CONCRETE fingerprint values (the job) and a symbolic second index per fingerprint: add the keys, expand,
+    add one more key; the invariants are asserted after every step with the candidate buckets computed by the harness.
+    (Covers implementations that key a dict/set by the fingerprint, which symbolic fingerprints cannot enter.)"""
+    from probables.exceptions import CuckooFilterFullError
+    c = dict(cfg, occ=[0] * cfg["cap"], swaps=2, auto=cfg.get("auto", False))
+    t = c03.build(ctx, c)
+    f = t.f
+    try:
+        for i, fp in enumerate(cfg["fps"]):
+            t.HK[f"key{i}"] = fp
+            f.add(f"key{i}")
+            c03.invariants(t, cfg["cap"], "-concrete-fp")
+        f.expand()
+        c03.invariants(t, cfg["cap"], "-concrete-fp")
+        t.HK["last"] = cfg["last"]
+        f.add("last")
+        c03.invariants(t, cfg["cap"], "-concrete-fp")
+    except CuckooFilterFullError:
+        ctx.reach("concrete-fp-history-full")
+        return
+    for i, fp in enumerate(cfg["fps"]):
+        ctx.check(bool(f.check(f"key{i}")) is True, "concrete-fp-present")
+
+
 HARNESS = dict(c03.HARNESS)
+HARNESS["c15.concrete_fp_history"] = concrete_fp_history
 HARNESS["c15.load"] = load
 
 
@@ -52,4 +78,11 @@ def jobs(tier):
             for occ in itertools.product(range(bsz + 1), repeat=cap):
                 js.append({"h": "c15.load", "cfg": {"cap": cap, "bsz": bsz, "swaps": 3, "auto": True, "occ": list(occ), "counting": counting},
                            "opts": {"index_concretize_limit": 8, "witnesses": 1}})
+    for counting in (False, True):
+        for cap, bsz in [(2, 1), (2, 2), (3, 1)]:
+            for fps in ([1, 2], [1, 3], [2, 4], [1, 2, 3], [3, 5, 6]):
+                if len(fps) > cap * bsz:
+                    continue
+                js.append({"h": "c15.concrete_fp_history", "cfg": {"cap": cap, "bsz": bsz, "fps": fps, "last": 7, "counting": counting},
+                           "opts": {"index_concretize_limit": 8, "witnesses": 1, "cost": 20}})
     return js
